@@ -19,8 +19,9 @@ python3 /verif/engine/overlay.py $D1 >/dev/null
 rm -rf $D0 $D1
 echo "SEED $ID: demo base exit=$B patched exit=$P suite: $(cat $DST/suite.patched.out)"
 RES=""
+EV=$(mktemp -d)
 for PR in "$@"; do
-  OUT=$(cd /verif && ./vf check $PR --tier quick 2>&1)
+  OUT=$(cd /verif && VERIF_EVIDENCE_DIR=$EV ./vf check $PR --tier quick 2>&1)
   CODE=$?
   echo "$OUT" > $DST/check.$PR.out
   V=$(echo "$OUT" | grep -c "^VIOLATION")
@@ -28,5 +29,6 @@ for PR in "$@"; do
   RES="$RES $PR:exit=$CODE:viol=$V"
 done
 git -C /repo checkout -- .
+rm -rf $EV
 find /verif/replays -name '*.json' -delete
 echo "$ID base=$B patched=$P checks:$RES" >> /verif/seeded/RESULTS.txt
